@@ -66,6 +66,12 @@ CHECKS['C12'] = ('every residue string of length 1..3 (quick) / 1..4 (thorough) 
                  'explicit form written by the harness, condensation = explicit form; isotope labels {13C,15N,18O,17O,34S,'
                  'D,T,2H} and 9 pairs: label shift = atom count x NIST isotope difference, with/without '
                  'use_isotope_on_mods', 'DESIGN.md section 4 / C12')
+CHECKS['C11'] = ('deviation-bounded space of abstract peptides (tagged residue modifications, terminal, labile, static, isotope, '
+                 'unknown, charge, interval layouts) on all {A,K} strings of length<=4/5 and distinct-residue strings of '
+                 'length<=5/6; on every state every reverse(+-swap), shift in [-2n,2n], shuffle seed 0..7, sort, slice '
+                 '0<=i<=j<=n and slice-of-slice, split, through method (inplace False/True) and string function; model '
+                 'operations on the abstract peptide + inverse/identity laws + mass and unit-multiset invariants',
+                 'DESIGN.md section 4 / C11')
 NOT_APPLICABLE = {}
 
 
